@@ -724,6 +724,16 @@ async fn run_op(c: &str, n: i64, o: &Op) -> Res {
             drop(h);
             r(okerr(&x), a)
         }
+        "force_send" => {
+            let h = take_h(&o.h);
+            let a = actor_of(h.aid());
+            let x = match &h {
+                WSender(x) => x.try_force_send(SMsg(desc(c, n, o))),
+                _ => panic!("harness: force_send on wrong kind"),
+            };
+            put_h(&o.h, h);
+            r(okerr(&x), a)
+        }
         "call" => {
             let h = Held::take(&o.h);
             let a = actor_of(h.get().aid());
